@@ -378,13 +378,23 @@ fn build_history(e: &mut Ent) -> Vec<Op> {
         }
     };
     // most histories start by programming the compare registers and a clock
-    let style = e.below(4);
+    let style = e.below(5);
+    let n = if style == 4 { 200 + e.below(100) as usize } else { n };
+    if style == 4 {
+        // a long run at /8192 (needs dozens of maximal charges per tick)
+        let v = (e.u8() & 0xe0) | 3;
+        tcr = v;
+        ops.push(Op::Tcnt(e.pick(&[0xfdu8, 0xfe, 0x00, 0x7f])));
+        ops.push(Op::Tcora(e.pick(&[0xffu8, 0x00, 0x01, 0x80])));
+        ops.push(Op::Tcr(v));
+    }
     for _ in 0..n {
-        match e.below(16) {
+        let sel = if style == 4 && !e.chance(1, 24) { 0 } else { e.below(16) };
+        match sel {
             0..=8 => {
                 let s = match style {
-                    0 => 1 + e.below(6) as u8,        // tiny charges
-                    1 => 255,                          // maximal charges (long /8192 runs)
+                    0 => 1 + e.below(6) as u8, // tiny charges
+                    1 | 4 => 255,              // maximal charges (long /8192 runs)
                     _ => 1 + e.below(255) as u8,
                 };
                 ops.push(Op::Elapse(s));
@@ -440,12 +450,20 @@ fn resplit(ops: &[Op], e: &mut Ent) -> Vec<Op> {
     let mut out = vec![];
     let mut acc: u64 = 0;
     let mode = e.below(3);
-    let flush = |acc: &mut u64, out: &mut Vec<Op>, e: &mut Ent| {
+    let total: u64 = ops.iter().map(|o| if let Op::Elapse(n) = o { *n as u64 } else { 0 }).sum();
+    // chunk sizes come from a tiny generator seeded by one draw (a pure function of the case's raw
+    // draws), so arbitrarily long histories do not exhaust the draw vector
+    let mut x = e.u32() | 1;
+    let mut flush = |acc: &mut u64, out: &mut Vec<Op>, _e: &mut Ent| {
         while *acc > 0 {
+            x = x.wrapping_mul(1664525).wrapping_add(1013904223);
+            let rnd = (x >> 16) as u64;
             let s = match mode {
+                // single states (bounded work: very long histories use small random chunks instead)
+                0 if total > 6000 => 1 + rnd % 24,
                 0 => 1u64,
                 1 => 255,
-                _ => 1 + e.below(255) as u64,
+                _ => 1 + rnd % 255,
             }
             .min(*acc);
             out.push(Op::Elapse(s as u8));
